@@ -77,7 +77,7 @@ fn expected(dsl: &str, source: &str, o: &Opts) -> Result<Expected, LibPanic> {
         Ok(f) => f,
     };
     let tree = pysrc::parse(source);
-    if !o.allow_parse_errors && !TreeParseError::all(&tree).is_empty() {
+    if !o.allow_parse_errors && !super::c18::expected_errors(&tree).0.is_empty() {
         return Ok(Expected::Fail("source has syntax errors"));
     }
     let index = TreeIndex::new(&tree);
